@@ -157,6 +157,13 @@ def invariant_for(eng, s, it, st):
     if isinstance(it, calls.RangeV):
         lo, hi = it.lo, it.hi
         elem = lambda i: i
+    elif isinstance(it, calls.ZipV):
+        lens = [calls.length(eng, q, st) for q in it.seqs]
+        n = lens[0]
+        for ln in lens[1:]:
+            n = minv(n, ln)
+        lo, hi = 0, n
+        elem = lambda i, it=it: tuple(eng.getitem(q, i, st_cur[0]) for q in it.seqs)
     elif isinstance(it, calls.EnumV):
         n = calls.length(eng, it.seq, st)
         lo, hi = 0, n
